@@ -49,7 +49,7 @@ def _h(*xs):
     return int(hashlib.md5(repr(xs).encode()).hexdigest()[:8], 16)
 
 
-def materialise(nodes, base, seed=0, skip_config_of=None, use_api=True):
+def materialise(nodes, base, seed=0, skip_config_of=None, use_api=True, mounts=(), mount_root=None):
     """Create the tree under base (which must not exist). Returns a description of what was decorated.
     Projects are created either by signac.init_project (then decorated) or entirely by hand; which one, whether
     the configuration carries extra entries, and whether link targets are absolute or relative is decided
@@ -61,7 +61,13 @@ def materialise(nodes, base, seed=0, skip_config_of=None, use_api=True):
         if n["k"] == "link":
             continue
         d = ap(base, n["p"])
-        os.makedirs(d, exist_ok=True)
+        if n["p"] in mounts and n["p"]:
+            # CAL_DeviceBlind: the directory itself lives under mount_root (possibly another device), a link stands here
+            real = os.path.join(mount_root, "m%d" % len(os.listdir(mount_root)))
+            os.makedirs(real)
+            os.symlink(real, d)
+        else:
+            os.makedirs(d, exist_ok=True)
         if n["k"] in PROJ_KINDS and n["p"] != skip_config_of:
             h = _h(seed, n["p"])
             cfg = os.path.join(d, ".signac", "config")
@@ -99,7 +105,7 @@ def materialise(nodes, base, seed=0, skip_config_of=None, use_api=True):
             continue
         src = ap(base, n["p"])
         tgt = os.path.join(base, "nowhere", "at-all") if n["tgt"] == NONE else ap(base, n["tgt"])
-        if _h(seed, n["p"], "rel") % 2:
+        if _h(seed, n["p"], "rel") % 2 and not mounts:
             tgt = os.path.relpath(tgt, os.path.dirname(src))
         os.symlink(tgt, src)
     return info
